@@ -12,6 +12,9 @@
 #include <kernel/space/discontinuous/element.hpp>
 #include <kernel/global/gate.hpp>
 #include <kernel/global/vector.hpp>
+#include <kernel/global/matrix.hpp>
+#include <kernel/lafem/sparse_matrix_bcsr.hpp>
+#include <kernel/lafem/dense_vector_blocked.hpp>
 #include <control/asm/gate_asm.hpp>
 #include <kernel/analytic/common.hpp>
 #include <kernel/assembly/common_functionals.hpp>
@@ -130,6 +133,23 @@ namespace C13
       double jn2 = splitter.is_root() ? double(vec_base2.norm2()) : 0.0; comm.allreduce(&jn2, &join_norm2, std::size_t(1), Dist::op_max);
     }
 
+    // type-0 -> type-1 conversion of matrices (SynchMatrix): a blocked matrix whose blocks are a_ij * B (B a fixed 2x2 block) must
+    // convert to the scalar type-1 matrix (x) B entry by entry - the exchange of blocked values against the exchange of scalars
+    double blk_t1_err = 0.0, t1_max = 0.0;
+    {
+      typedef LAFEM::SparseMatrixBCSR<DataType, IndexType, 2, 2> LMB; typedef LAFEM::DenseVectorBlocked<DataType, IndexType, 2> LVB; typedef typename SystemLevelType::SystemMirror MirT;
+      const auto& la = lvl.matrix_sys.local(); const Index nloc = la.rows();
+      Global::Gate<LVB, MirT> gate_b; gate_b.convert(lvl.gate_sys, LVB(nloc));
+      Adjacency::Graph gr(Adjacency::RenderType::as_is, la); LMB lb(gr);
+      static const double B[2][2] = {{1.0, 0.5}, {-0.25, 2.0}};
+      for(Index k = 0; k < la.used_elements(); ++k) for(int i = 0; i < 2; ++i) for(int j = 0; j < 2; ++j) lb.val()[k][i][j] = la.val()[k] * B[i][j];
+      Global::Matrix<LMB, MirT, MirT> gmb(&gate_b, &gate_b, lb.clone());
+      auto t1b = gmb.convert_to_1(); auto t1a = lvl.matrix_sys.convert_to_1();
+      double em = 0.0, am = 0.0;
+      for(Index k = 0; k < t1a.used_elements(); ++k) { am = std::max(am, std::fabs(double(t1a.val()[k]))); for(int i = 0; i < 2; ++i) for(int j = 0; j < 2; ++j) em = std::max(em, std::fabs(double(t1b.val()[k][i][j]) - double(t1a.val()[k]) * B[i][j])); }
+      comm.allreduce(&em, &blk_t1_err, std::size_t(1), Dist::op_max); comm.allreduce(&am, &t1_max, std::size_t(1), Dist::op_max);
+    }
+
     lvl.filter_sys.filter_sol(vec_sol); lvl.filter_sys.filter_rhs(vec_rhs);
     const double rhs_norm = vec_rhs.norm2();
     String sname = args.check("solver") > 0 ? args.query("solver")->second.front() : String("jacobi");
@@ -161,9 +181,9 @@ namespace C13
     {
       std::printf("C13JSON {\"ranks\":%d,\"element\":\"%s\",\"num_dofs\":%llu,\"levels_physical\":%llu,\"levels_virtual\":%llu,\"status\":\"%s\",\"iters\":%d,"
         "\"rhs_norm_unfiltered\":%.17g,\"int_norm\":%.17g,\"dot_int_rhs\":%.17g,\"aint_norm\":%.17g,\"energy\":%.17g,\"maxabs\":%.17g,\"aint_max\":%.17g,\"at_diff\":%.17g,\"at4_diff\":%.17g,\"a4_diff\":%.17g,\"t0_norm\":%.17g,\"rhs_norm\":%.17g,"
-        "\"join_norm\":%.17g,\"join_norm2\":%.17g,\"int_norm_after_join\":%.17g,\"aint_norm_after_join\":%.17g,\"split_err\":%.17g,\"p0_dofs\":%llu,\"p0_dot\":%.17g,\"p0_norm\":%.17g,\"p0_norm_async\":%.17g,\"p0_max\":%.17g,\"def_init\":%.17g,\"def_final\":%.17g,\"true_res\":%.17g,\"sol_norm\":%.17g,\"h0_err\":%.17g,\"h1_err\":%.17g}\n",
+        "\"join_norm\":%.17g,\"join_norm2\":%.17g,\"int_norm_after_join\":%.17g,\"aint_norm_after_join\":%.17g,\"split_err\":%.17g,\"blk_t1_err\":%.17g,\"t1_max\":%.17g,\"p0_dofs\":%llu,\"p0_dot\":%.17g,\"p0_norm\":%.17g,\"p0_norm_async\":%.17g,\"p0_max\":%.17g,\"def_init\":%.17g,\"def_final\":%.17g,\"true_res\":%.17g,\"sol_norm\":%.17g,\"h0_err\":%.17g,\"h1_err\":%.17g}\n",
         comm.size(), ename, (unsigned long long)num_dofs, (unsigned long long)domain.size_physical(), (unsigned long long)domain.size_virtual(), stringify(result).c_str(), iters,
-        rhs_norm_unfiltered, int_norm, dot_int_rhs, aint_norm, energy, maxabs, aint_max, at_diff, at4_diff, a4_diff, t0_norm, rhs_norm, join_norm, join_norm2, int_norm_after_join, aint_norm_after_join, split_err, (unsigned long long)p0_dofs, p0_dot, p0_norm, p0_norm_async, p0_max, def_init, def_final, true_res, sol_norm, std::sqrt((double)errors.norm_h0_sqr), std::sqrt((double)errors.norm_h1_sqr));
+        rhs_norm_unfiltered, int_norm, dot_int_rhs, aint_norm, energy, maxabs, aint_max, at_diff, at4_diff, a4_diff, t0_norm, rhs_norm, join_norm, join_norm2, int_norm_after_join, aint_norm_after_join, split_err, blk_t1_err, t1_max, (unsigned long long)p0_dofs, p0_dot, p0_norm, p0_norm_async, p0_max, def_init, def_final, true_res, sol_norm, std::sqrt((double)errors.norm_h0_sqr), std::sqrt((double)errors.norm_h1_sqr));
       std::printf("C13LEVELS desired [%s] chosen [%s]\n", domain.format_desired_levels().c_str(), domain.format_chosen_levels().c_str());
       std::printf("C13INFO %s\n", domain.get_chosen_parti_info().c_str());
       std::fflush(stdout);
